@@ -186,7 +186,7 @@ fn pair(r: &mut Report, s: &str, d: &str) {
 
 pub fn run(cfg: &Cfg) -> (&'static str, Report, String, String) {
     let alpha = ["a", "b", "ñ"];
-    let (sl, dl) = (cfg.by(3, 6, 8), cfg.by(2, 3, 3));
+    let (sl, dl) = (cfg.by(2, 6, 8), cfg.by(2, 3, 3));
     let ss = strings_upto(&alpha, sl);
     let ds = strings_upto(&alpha, dl);
     let mut rep = par_for(cfg, ss.len(), |i, r| {
@@ -198,14 +198,14 @@ pub fn run(cfg: &Cfg) -> (&'static str, Report, String, String) {
         }
     });
     // every UTF-8 length under the empty delimiter and as a char delimiter
-    let s4 = strings_upto(&crate::c03::SIGMA4, cfg.by(2, 4, 5));
+    let s4 = strings_upto(&crate::c03::SIGMA4, cfg.by(1, 4, 5));
     let d4 = ["", "a", "ñ", "個", "🙂", "🙂a", "個個"];
     rep.merge(par_for(cfg, s4.len(), |i, r| {
         for d in &d4 {
             pair(r, &s4[i], d);
         }
     }));
-    let nrand = cfg.by(10, 1500, 10000);
+    let nrand = cfg.by(3, 1500, 10000);
     rep.merge(par_for(cfg, nrand, |i, r| {
         let mut rng = Rng::new(cfg.seed.wrapping_mul(104_729).wrapping_add(i as u64));
         let al: &[&str] = if rng.chance(1, 2) { &[",", "a"] } else { &[",", "a", "ñ", ";"] };
